@@ -34,7 +34,7 @@ def expect_assertions(eng, ctx, cfg, stream, must, clean, cutsets, label):
     for cuts in cutsets:
         chunks = HC.split(stream, cuts)
         w = {"kind": "hdlc", "cfg": list(cfg), "chunks": chunks, "expect": [SBytes(f) for f in must], "exact": False}
-        ctx.intend(w)
+        ctx.intend(w, alts=lambda: ({"kind": "hdlc", "cfg": list(cfg), "chunks": HC.split(stream, c), "expect": [SBytes(f) for f in must], "exact": False} for c in cutsets))
         _, got = HC.read_chunks(cfg, chunks)
         if first:
             ctx.witness, ctx.obs, first = w, HC.sig(got), False
